@@ -987,7 +987,10 @@ class Bada3FuelBurnModel(BaseFuelBurnModel):
                 )
             )
 
-            mass[0] = initial_mass
+            # Shift the whole profile so that it starts at the new initial
+            # mass (replacing only mass[0] would leave the rest of the profile
+            # integrated from the old initial mass).
+            mass += initial_mass - mass[0]
 
             final_mass_pct_change = (
                 np.abs(mass[-1] - old_final_mass) / old_final_mass
@@ -1105,7 +1108,10 @@ class Bada3FuelBurnModel(BaseFuelBurnModel):
                 )
             )
 
-            mass[0] = initial_mass
+            # Shift the whole profile so that it starts at the new initial
+            # mass (replacing only mass[0] would leave the rest of the profile
+            # integrated from the old initial mass).
+            mass += initial_mass - mass[0]
 
             final_mass_pct_change = (
                 np.abs(mass[-1] - old_final_mass) / old_final_mass
